@@ -334,6 +334,29 @@ func (w *W) c15Program(k int) {
 				})
 				trace = append(trace, "deser(payload-damaged)")
 			}
+			if r.Chance(1, 6) {
+				// a Serialize call that fails the only way it can (it panics on a tape it cannot
+				// represent: here a string entry pointing far outside the buffers, placed behind
+				// other strings) and is recovered by the caller; the Serializer is then used again
+				walk.Guard(func() error {
+					bad := src.Clone(nil)
+					seen := 0
+					for i := 0; i < len(bad.Tape); i++ {
+						if byte(bad.Tape[i]>>56) == '"' {
+							if seen++; seen >= 3 {
+								bad.Tape[i] = uint64('"')<<56 | 1<<40
+								break
+							}
+							i++
+						} else if t := byte(bad.Tape[i] >> 56); t == 'l' || t == 'u' || t == 'd' {
+							i++
+						}
+					}
+					ser.Serialize(nil, *bad)
+					return nil
+				})
+				trace = append(trace, "ser(unrepresentable tape, recovered)")
+			}
 			perr := walk.Guard(func() error {
 				blob = ser.Serialize(nil, *src)
 				out, derr = ser.Deserialize(blob, serDst)
